@@ -74,8 +74,25 @@ fn gen_poly<T: Elem>(src: &mut Src) -> Vec<T> {
 }
 
 fn run_t<T: Elem>(case: &mut Case) -> Result<(), String> {
-    let a: Vec<T> = gen_poly(&mut case.src);
-    let b: Vec<T> = gen_poly(&mut case.src);
+    let mut a: Vec<T> = gen_poly(&mut case.src);
+    let mut b: Vec<T> = gen_poly(&mut case.src);
+    // float types, one case in four: the variable is rescaled by a power of two, p(x) -> 2^h p(2^g x), i.e. coefficient i
+    // times 2^(g i + h) with 20 <= |g| <= 55 (products stay within the normal range).  All terms of one coefficient of a sum, product or derivative share one
+    // exponent, so the textbook formulae stay exact - while coefficients of one polynomial differ by up to 2^480
+    let scaled = !T::EXACT && case.src.below(4) == 0;
+    if scaled {
+        let g = (20 + case.src.below(36) as i32) * if case.src.coin() { 1 } else { -1 };
+        let ha = case.src.small_int(40) as i32;
+        let hb = ha; // sums need a common exponent
+        for (i, c) in a.iter_mut().enumerate() {
+            *c = c.scale2(g * i as i32 + ha);
+        }
+        for (i, c) in b.iter_mut().enumerate() {
+            *c = c.scale2(g * i as i32 + hb);
+        }
+        case.class(format!("{} coefficients rescaled by powers of two", T::NAME));
+    }
+    let (a, b) = (a, b);
     let s = T::small(&mut case.src);
     let x = if T::EXACT { T::small(&mut case.src) } else { T::from_int(case.src.small_int(3)) };
     // operands may carry spare capacity (as after trim()/pop()): the coefficient list, not the buffer, is the polynomial
@@ -140,7 +157,7 @@ fn run_t<T: Elem>(case: &mut Case) -> Result<(), String> {
     chk(&(&pb + &pa), &m_add(&a, &b), "&q + &p")?;
     chk(&(&pb * &pa), &m_mul(&a, &b), "&q * &p")?;
     // ---- evaluation is a ring homomorphism
-    if !a.is_empty() {
+    if !a.is_empty() && !scaled {
         let va = pa.eval(x);
         if !(va == m_eval(&a, x)) {
             return Err(format!("p.eval({:?}) = {:?}, power sum {:?}", x, va, m_eval(&a, x)));
@@ -166,7 +183,7 @@ fn run_t<T: Elem>(case: &mut Case) -> Result<(), String> {
         let mut cur = a.clone();
         for n in 0..=a.len() {
             chk(&pa.derivative_n(n), &cur, &format!("p.derivative_n({})", n))?;
-            if n < a.len() {
+            if n < a.len() && !scaled {
                 let v = pa.derivative_at(x, n);
                 if !(v == m_eval(&cur, x)) {
                     return Err(format!("p.derivative_at({:?},{}) = {:?}, expected {:?}", x, n, v, m_eval(&cur, x)));
